@@ -133,6 +133,9 @@ type MessageInitiation struct {
 }
 
 func (msg *MessageInitiation) FromBytes(src []byte) error {
+	if len(src) != MessageInitiationBytesTotal {
+		return io.ErrUnexpectedEOF
+	}
 	buf := bytes.NewBuffer(src)
 	if err := binary.Read(buf, MessageBytesOrder, &msg.Type); err != nil {
 		return err
